@@ -244,8 +244,10 @@ func inBoostState(l *queryStringLex, next rune, eof bool) (lexState, bool) {
 
 func inTildeState(l *queryStringLex, next rune, eof bool) (lexState, bool) {
 
-	// only a non-escaped space ends the tilde (or eof)
-	if eof || (!l.inEscape && next == ' ') {
+	// a non-escaped space ends the tilde (or eof), and so does a boost:
+	// the grammar allows a boost suffix after a fuzzy term (ab~1^2), but
+	// the fuzziness swallowed it ("1^2") and the clause was rejected
+	if eof || (!l.inEscape && (next == ' ' || next == '^')) {
 		// end tilde
 		l.nextTokenType = tTILDE
 		if l.buf == "" {
@@ -256,7 +258,8 @@ func inTildeState(l *queryStringLex, next rune, eof bool) (lexState, bool) {
 		}
 		logDebugTokens("TILDE - '%s'", l.nextToken.s)
 		l.reset()
-		return startState, true
+		// leave the ^ for the start state, which begins the boost
+		return startState, eof || next != '^'
 	} else if !l.inEscape && next == '\\' {
 		l.inEscape = true
 	} else if l.inEscape {
